@@ -24,7 +24,8 @@ INTS = ("i16", "i8", "i32", "i64")
 # A shape is generated only once known_findings.txt has decided its class (`known:` = excused while impl == model,
 # `fixed: ... (was class X)` = regression input that must pass); until then it is listed in the evidence, not run.
 PENDING = {
-    "union-all-mixed-types": "SELECT c3 AS c0 FROM td UNION ALL SELECT c4 AS c0 FROM td   (Int32 | Int64: reported Int32, second batch Int64)",
+    "union-all-mixed-types": "SELECT c3 AS c0, c3 AS c0 FROM td UNION ALL SELECT c4, c4 FROM td   (an input repeating an output name is not cast "
+                             "by f5f2dbc: reported Int32, second batch Int64; every other UNION shape is a regression input)",
     "date-minus-date": "SELECT c6 - c6 AS c0 FROM td   (reported Float64, batch Duration(Second))",
     "greatest-least-mixed": "SELECT greatest(c3, c4) AS c0 FROM td   (reported Int32, batch Int64)",
     "decimal-arith": "SELECT CAST(c4 AS DECIMAL(10,2)) + 1 AS c0 FROM td   (reported Decimal128(38,10), batch Int64)",
@@ -113,15 +114,34 @@ def regression_group_case_datetrunc():
     return {"tables": [t], "queries": qs}
 
 
+def regression_group_union():
+    """class union-all-mixed-types for numeric pairs (closed by fix: f5f2dbc): every ordered pair of the six numeric types"""
+    t = {"name": "td", "types": list(TD_TYPES), "batch_sizes": None,
+         "rows": [[1, 2, ("q", Fraction(3, 2)), 3, 4, ("q", Fraction(5, 4)), ("d", 400), "ab", True], [None] * 9]}
+    base = relgen.tbl(0, t)
+    num = [j for j, x in enumerate(TD_TYPES) if x in NUM]
+    pr = lambda j: ("project", base, [col(j)])
+    qs = [("setop", "SUnion", True, pr(a), pr(b)) for a in num for b in num if a != b]
+    qs += [("setop", "SUnion", False, pr(a), pr(b)) for a, b in [(3, 4), (4, 3), (3, 5), (5, 4)]]
+    u = ("setop", "SUnion", True, pr(3), pr(4))
+    qs += [("limit", ("sort", u, [(col(0), False, None)]), 0, 3), ("filter", u, ("cmp", "CGt", col(0), lit(0))),
+           ("agg", u, [], [("ASum", col(0)), ("AMax", col(0))]), ("setop", "SUnion", True, u, pr(5)), ("setop", "SUnion", True, pr(5), u),
+           ("setop", "SUnion", True, ("project", base, [col(3), col(5)]), ("project", base, [col(4), col(3)]))]
+    return {"tables": [t], "queries": [{"q": q, "kind": "regression:union-all-mixed-types", "regression": True} for q in qs]}
+
+
 def known_shapes_group(decided):
     """one deterministic instance of every shape whose class known_findings.txt records as known:"""
     t = {"name": "td", "types": list(TD_TYPES), "batch_sizes": None,
          "rows": [[1, 2, ("q", Fraction(3, 2)), 3, 4, ("q", Fraction(5, 4)), ("d", 400), "ab", True], [None] * 9]}
     base = relgen.tbl(0, t)
     qs = []
-    if decided.get("union-all-mixed-types"):
-        for a, b in [(3, 4), (4, 3), (0, 3), (2, 5)]:
-            qs.append({"q": ("setop", "SUnion", True, ("project", base, [col(a)]), ("project", base, [col(b)])), "kind": "known-shape:union"})
+    if decided.get("union-all-mixed-types") == "known":
+        # what is left of the class after f5f2dbc: an input that repeats an output column name is left uncast
+        for s in ["SELECT c3 AS c0, c3 AS c0 FROM td UNION ALL SELECT c4, c4 FROM td",
+                  "SELECT c4 AS c0, c4 AS c0 FROM td UNION ALL SELECT c3, c3 FROM td"]:
+            qs.append({"q": None, "sql": s, "kind": "known-shape:union-all-mixed-types", "class": "union-all-mixed-types", "width": 2,
+                       "names": ["c0", "c0"]})
     for e, cls in FUNCTIONS:
         if cls and decided.get(cls):
             qs.append({"q": None, "sql": f"SELECT {e} AS c0 FROM td", "kind": "known-shape:" + cls, "class": cls})
@@ -172,9 +192,9 @@ def directed(rng, tables, decided):
         a, b = rng.choice([(3, 3), (4, 4), (3, 4), (0, 3), (1, 0), (6, 6), (7, 7)])
         return ("join", rng.choice(["JLeft", "JRight", "JFull", "JInner"]), base, base, ("cmp", "CEq", col(a), col(len(ts) + b))), "join"
     a = rng.choice(num)
-    if "union-all-mixed-types" in decided and rng.random() < 0.5:
-        b = rng.choice([j for j in num if (ts[j] in INTS) == (ts[a] in INTS)])
-        return ("setop", "SUnion", True, ("project", base, [col(a)]), ("project", base, [col(b)])), "setop-mixed"
+    if rng.random() < 0.5:
+        b = rng.choice(num)
+        return ("setop", "SUnion", rng.random() < 0.7, ("project", base, [col(a)]), ("project", base, [col(b)])), "setop-mixed"
     same = [j for j in num if ts[j] == ts[a]]
     l = ("project", base, [("arith", "AAdd", col(a), col(a))])
     r = ("project", base, [col(rng.choice(same))])
@@ -240,19 +260,18 @@ def evaluate(ctx, groups):
         for qi, x in enumerate(g["queries"]):
             index.append((gi, qi))
             if x["q"] is None:
-                terms.append(f"[[-1]; [0; {x.get('width', 1)}]]")
+                terms.append(f"[[-1]; [{x.get('width', 1)}]]")
                 continue
             qc = sqlq.to_coq(x["q"])
-            terms.append(f"[schema_codes (schema_of dbs{gi} {qc}); [if known_union_mixed dbs{gi} {qc} then 1 else 0; "
-                         f"Z.of_nat (width {qc})]]")
+            terms.append(f"[schema_codes (schema_of dbs{gi} {qc}); [Z.of_nat (width {qc})]]")
     outs = vlib.run_harness("c30", cases, timeout=3000)
     vals = vlib.coq_eval_list(REQ, "\n".join(preludes), terms, "c30", shard=60)
     res = []
     for (gi, qi), v in zip(index, vals):
         g = groups[gi]; x = g["queries"][qi]
         o = outs[gi]["results"][qi] if "results" in outs[gi] else {"err": str(outs[gi])}
-        rep, (k_union, width) = v
-        cls = x.get("class") or ("union-all-mixed-types" if k_union else None)
+        rep, (width,) = v
+        cls = x.get("class")
         r = {"sql": cases[gi]["queries"][qi], "kind": x["kind"], "tables": cases[gi]["tables"], "model_reported": rep,
              "class": cls, "width": width, "out": o, "regression": bool(x.get("regression"))}
         if "ok" not in o:
@@ -289,7 +308,7 @@ def evaluate(ctx, groups):
             eq = False; why.append(f"reported types {rt} != model schema_of {rep}")
         if len(rn) != width:
             eq = False; why.append(f"{len(rn)} columns reported, model width {width}")
-        if rn != [f"c{i}" for i in range(width)]:
+        if rn != (x.get("names") or [f"c{i}" for i in range(width)]):
             eq = False; why.append(f"names {rn}")
         r["eq"], r["why"] = eq, why
         r["status"] = "ran"
@@ -300,7 +319,7 @@ def evaluate(ctx, groups):
 def run(ctx):
     proved = ctx.prove()
     decided = decided_classes(ctx)
-    groups = [regression_group(), regression_group_case_datetrunc(), known_shapes_group(decided)] + \
+    groups = [regression_group(), regression_group_case_datetrunc(), regression_group_union(), known_shapes_group(decided)] + \
              [gen_group(ctx.rng, 12, decided) for _ in range(ctx.n(45, 1500))]
     res = evaluate(ctx, groups)
     ran = [r for r in res if r["status"] == "ran"]
@@ -341,7 +360,8 @@ def run(ctx):
         rule="first the regression inputs of the closed classes: i32-arith (Int32 op Int32 through projection, unary minus, CASE, "
              "COALESCE, derived table, filter, ORDER BY/LIMIT, both sides of UNION ALL, join, aggregates), case-float64-widening "
              "(integer / Float32 THEN with a Float64 branch in every position, through filter, sort, aggregate, UNION ALL) and "
-             "date-trunc-date (DATE_TRUNC over DATE and TIMESTAMP, in a derived table, GROUP BY, ORDER BY); one instance of every "
+             "date-trunc-date (DATE_TRUNC over DATE and TIMESTAMP, in a derived table, GROUP BY, ORDER BY), union-all-mixed-types "
+             "(UNION ALL of every ordered pair of the six numeric types, UNION, nested and through sort/filter/aggregate); one instance of every "
              "shape recorded as known:; then per group of 12: "
              "C01's random typed query trees (depth<=3, 3 tables of six column types, NULLs, random batch splits, one table "
              "sometimes Parquet, optional ORDER BY/LIMIT), every third statement directed at a typing rule over a table with all "
